@@ -184,4 +184,14 @@ NotFreeWhileUsed(t, pools) ==
   /\ UsedPeerIds(t) \subseteq pools.peerOut
   /\ UsedAppIds(t) \subseteq pools.appIdOut
 NoDuplicatesInPools(pools) == pools.peerDup = {} /\ pools.appIdDup = {}
+NoPools == [ctrOut |-> {}, appCellOut |-> {}, sessCellOut |-> {}, peerOut |-> {}, peerDup |-> {}, appIdOut |-> {}, appIdDup |-> {}]
+\* a tunnel peer ID that a sessions entry refers to is allocated and has its tunnel_peers entry (0 = none, 1 = dbuf)
+ReferencedPeerIds(t) == {e.peer : e \in {x \in t.sessDL : x.act = "fwd" /\ x.peer > 1}}
+PeerRefsOK(t, pools, havePools) ==
+  /\ ReferencedPeerIds(t) \subseteq UsedPeerIds(t)
+  /\ havePools => ReferencedPeerIds(t) \subseteq pools.peerOut
+IdDiag(t, pools) ==
+  [ctr |-> CountersExclusive(t), appCells |-> AppCellsExclusive(t), sessCells |-> SessCellsExclusive(t),
+   ctrFree |-> UsedCtr(t) \ pools.ctrOut, appCellFree |-> UsedAppCells(t) \ pools.appCellOut, sessCellFree |-> UsedSessCells(t) \ pools.sessCellOut,
+   peerFree |-> UsedPeerIds(t) \ pools.peerOut, appIdFree |-> UsedAppIds(t) \ pools.appIdOut, dups |-> <<pools.peerDup, pools.appIdDup>>]
 =============================================================================
